@@ -286,6 +286,7 @@ def check(ctx, report):
     report.floor('C19.R1', 300, 'classes in the containment graph')
     stateless_parsing(ctx, report)
     module_level_state(ctx, report)
+    reparsed_buffers(ctx, report)
     linear_scans_in_loops(ctx, report)
     parser_construction(ctx, report)
     report.floor('C19.R4', 60, 'loop/item obligations')
@@ -632,6 +633,51 @@ def rooted_returning_methods(model):
             if isinstance(n, ast.Return) and n.value is not None and isinstance(n.value, (ast.Attribute, ast.Subscript)) and class_rooted(n.value, f, model, ()):
                 out.add(f.name)
     return out
+
+
+def reparsed_buffers(ctx, report, RULE='C19.R11'):
+    """A loop that hands a buffer to a parser on every pass makes progress only if the buffer shrinks from the front: the variable is
+    re-bound to a suffix of itself (``rest = rest[n:]``).  A loop that re-binds it to anything else - the part already read plus an
+    edited rest - parses the same octets again on every pass: a field that needs k passes costs k times its length.  Every loop of
+    the package in which a variable is both handed to a parsing call and re-bound is read."""
+    report.rule(RULE, 'a buffer that is parsed inside a loop and re-bound there is re-bound to a suffix of itself (no pass reads the octets of an earlier one again)')
+    n = 0
+
+    def parsing_call(call, params):
+        fn = call.func
+        text = ast.unparse(fn)
+        last = text.split('.')[-1]
+        return last in ('ParserText', 'ParserBinary') or 'parse' in last.lower() or (isinstance(fn, ast.Name) and fn.id in params)
+    for f in ctx.model.functions():
+        if f.module.external:
+            continue
+        params = {a.arg for a in f.node.args.args + f.node.args.kwonlyargs}
+        for loop in ast.walk(f.node):
+            if not isinstance(loop, (ast.While, ast.For)):
+                continue
+            handed = {}
+            for x in ast.walk(loop):
+                if isinstance(x, ast.Call) and x.args and isinstance(x.args[0], ast.Name) and parsing_call(x, params):
+                    handed.setdefault(x.args[0].id, x)
+            for name, call in sorted(handed.items()):
+                binds = [st for st in ast.walk(loop) if isinstance(st, ast.Assign) and any(isinstance(t, ast.Name) and t.id == name for t in st.targets)]
+                if not binds:
+                    continue
+                if not all(any(isinstance(y, ast.Name) and y.id == name for y in ast.walk(st.value)) for st in binds):
+                    continue        # bound afresh on every pass (an item cut out of the input), not carried from pass to pass
+                n += 1
+                for st in binds:
+                    v = st.value
+                    suffix = isinstance(v, ast.Subscript) and isinstance(v.value, ast.Name) and v.value.id == name and isinstance(v.slice, ast.Slice) and \
+                        v.slice.lower is not None and v.slice.upper is None and v.slice.step is None
+                    if not suffix:
+                        report.add(RULE, '%s@reparse[%s]' % (f.construct, name),
+                                   '%s is parsed by %s on every pass of the loop and re-bound there to %s, which is not a suffix of it: each pass reads the '
+                                   'octets of the earlier passes again (work grows with the square of the number of passes)' % (
+                                       name, ast.unparse(call.func)[:40], ast.unparse(v)[:70]))
+                        break
+    report.count(RULE, n)
+    report.floor(RULE, 1, 'loops that parse a buffer they re-bind')
 
 
 MUTATING_METHODS = ('append', 'extend', 'insert', 'pop', 'remove', 'clear', 'sort', 'reverse', 'update', 'setdefault', 'add', 'discard', 'popitem',
